@@ -528,7 +528,7 @@ void botpOCRAStepS(void* state, const octet ctr[8], const octet p[],
 	// загрузить s
 	if (st->s_len)
 	{
-		ASSERT(memIsDisjoint2(p, st->s_len, s, botpOCRA_keep()) || s == st->s);
+		ASSERT(memIsDisjoint2(s, st->s_len, st, botpOCRA_keep()) || s == st->s);
 		memMove(st->s, s, st->s_len);
 	}
 }
